@@ -87,6 +87,32 @@ def near_total_cases(draw):
     return {"spec": sp}
 
 
+@st.composite
+def unfused_branch_cases(draw):
+    """two independent producers and one consumer with NO fused loops (max_fused_loops = 0): the first producer's output is
+    held whole in the GLB across the second producer, which does not use it; the GLB capacity is drawn around the sizes of
+    the two intermediates so that it binds exactly there ('memory never reserved across fused loops' skipping is at its
+    decision boundary)"""
+    es, rvs = G.diamond()
+    bounds = {rv: draw(st.sampled_from([2, 2, 3, 4])) for rv in rvs}
+    if draw(st.booleans()):
+        bounds["k1"] = bounds["k0"] * draw(st.sampled_from([1, 2]))
+    bits = 8
+    wl = {"einsums": es, "bounds": bounds}
+    sizes = G.tensor_sizes(wl)
+    u = sizes["U"]
+    lo, hi = max(3, u // 2), 2 * u + max(sizes.values())
+    vals = draw(st.integers(lo, hi))
+    nodes = [{"type": "Memory", "name": "Main", "size": "inf", "keep": "~Intermediates", "may_keep": "All",
+              "read": [draw(st.sampled_from([10, 50])), "inf"], "write": [draw(st.sampled_from([10, 50])), "inf"], "leak": 0},
+             {"type": "Memory", "name": "GLB", "size": vals * bits + bits / 2, "keep": "~Main", "may_keep": "All",
+              "read": [1, "inf"], "write": [1, "inf"], "leak": 0},
+             {"type": "Compute", "name": "MAC", "compute": [1, 1], "leak": 0}]
+    sp = {"shape": "diamond-unfused", "einsums": es, "bounds": bounds, "bits": {"All": bits}, "n_instances": 1, "nodes": nodes,
+          "mapper": {"metrics": draw(st.sampled_from(["ENERGY", "ENERGY", "ENERGY|LATENCY"])), "max_fused_loops": 0}}
+    return {"spec": sp}
+
+
 def _front(mappings, with_usage, mems):
     df = mappings.data
     out = []
@@ -205,6 +231,7 @@ def run_shard(shard, col):
     drive(cases(), check, n=shard["n"], seed=hash32(shard["seed"], "C14", shard["k"]), col=col, shrink=False)
     drive(weight_pressure_cases(), check, n=shard["n"], seed=hash32(shard["seed"], "C14w", shard["k"]), col=col, shrink=False)
     drive(near_total_cases(), check, n=shard["n"], seed=hash32(shard["seed"], "C14t", shard["k"]), col=col, shrink=False)
+    drive(unfused_branch_cases(), check, n=shard["n"], seed=hash32(shard["seed"], "C14u", shard["k"]), col=col, shrink=False)
 
 
 def replay(desc, col):
